@@ -20,7 +20,7 @@ from outrank import core_ranking as cr
 
 ID = 'C09'
 RULE = ('Layer 1 (owned schedules, in-process): generated frames (2-20 columns, so that batches exceed 128 combinations) x '
-        'configurations (incl. --mi_stratified_sampling_ratio < 1) x schedules (execution permutation seed, 1-16 logical workers, '
+        'configurations (incl. --mi_stratified_sampling_ratio < 1 and the noise controls drawn from the global numpy RNG) x schedules (execution permutation seed, 1-16 logical workers, '
         'optionally real threads, map flavour, async results that become ready after a generated number of polls - the 4 s polling '
         'sleep of the code is replaced by a no-op through a module-attribute shim) - the triplet lists of two consecutive batches under the scheduled pool must '
         'equal those under the inline pool; non-trivial = execution order differs from submission order with >=2 workers. Layer 2 '
@@ -96,7 +96,7 @@ def l1_case(draw):
             'label_pos': draw(st.integers(0, ncols - 1)), 'pairwise': draw(st.booleans()),
             'heuristic': draw(st.sampled_from(['MI-numba-randomized', 'MI-numba-randomized', 'MI-numba-3mr', 'max-value-coverage'])),
             'cap': draw(st.sampled_from([2, 5, 2**15, 2**15, 2**15])), 'interaction_order': draw(st.sampled_from([1, 1, 2])),
-            'ratio': draw(st.sampled_from([1.0, 1.0, 0.6, 0.35])),
+            'ratio': draw(st.sampled_from([1.0, 1.0, 0.6, 0.35])), 'noise': draw(st.sampled_from([False, False, True])),
             'order_seed': draw(st.integers(0, 2**31)), 'workers': draw(st.integers(1, 16)), 'threads': draw(st.booleans())}
 
 
@@ -122,7 +122,8 @@ def oracle_l1(case, rec):
     args = lambda: stubs.make_args(heuristic=case['heuristic'], target_ranking_only='False' if case['pairwise'] else 'True',  # noqa: E731
                                    combination_number_upper_bound=int(case['cap']),
                                    interaction_order=int(case['interaction_order']) if case['ncols'] <= 6 else 1,
-                                   mi_stratified_sampling_ratio=float(case.get('ratio', 1.0)))
+                                   mi_stratified_sampling_ratio=float(case.get('ratio', 1.0)),
+                                   include_noise_baseline_features='True' if case.get('noise') else 'False')
 
     def run_with(pool):
         stubs.reset_globals()
@@ -143,7 +144,7 @@ def oracle_l1(case, rec):
     permuted = any(p != sorted(p) for p in pool.executed_orders)
     rec.nt(permuted and case['workers'] >= 2, key=case)
     rec.cls('threads' if case['threads'] else 'logical-workers', 'h=' + case['heuristic'],
-            'cap-binds' if case['cap'] < 10 else 'cap-free', 'ratio<1' if case.get('ratio', 1.0) < 1 else 'ratio=1',
+            'noise-controls' if case.get('noise') else 'no-noise', 'cap-binds' if case['cap'] < 10 else 'cap-free', 'ratio<1' if case.get('ratio', 1.0) < 1 else 'ratio=1',
             '>128-combinations' if any(len(b) > 256 for b in base) else '<=128-combinations')
     if got != base:
         for bi, (g, b) in enumerate(zip(got, base)):
